@@ -51,6 +51,7 @@ type c03Case struct {
 	Required    bool   `json:"required"` // the credential the policy requires was proved
 	Suite       string `json:"suite"`    // optional: cipher suite override
 	KeyType     string `json:"keyType"`  // "" (ECDSA) | "rsa"  credentials of the rogue server
+	MixedPSK    bool   `json:"mixedPSK"` // honest server is configured with certificates AND a PSK callback (both suite families enabled)
 	NameKind    string `json:"nameKind"` // server name the honest client is configured with: "" (DNS name) | "ip4" | "ip6" (address literals)
 }
 
@@ -381,6 +382,12 @@ func runC03Case(idx int, cs *c03Case) (res c03Result) { //nolint:cyclop,gocognit
 		} else {
 			so = append(so, WithCertificates(p.server), WithClientAuth(ClientAuthType(cs.Policy)), WithClientCAs(p.pool))
 			co = append(co, WithInsecureSkipVerify(true))
+			if cs.MixedPSK && cs.Ver == 12 {
+				// the server also serves PSK clients; this client negotiates a certificate suite and knows no PSK
+				so = append(so, WithPSK(func([]byte) ([]byte, error) { return []byte("k-server-only"), nil }), WithPSKIdentityHint([]byte("lab-server")),
+					WithCipherSuites(TLS_ECDHE_ECDSA_WITH_AES_128_GCM_SHA256, TLS_PSK_WITH_AES_128_GCM_SHA256, TLS_ECDHE_PSK_WITH_AES_128_CBC_SHA256))
+				co = append(co, WithCipherSuites(TLS_ECDHE_ECDSA_WITH_AES_128_GCM_SHA256))
+			}
 			if cert, has := pick(false); has {
 				// the getter makes the rogue present its certificate whatever CA names the server asked for
 				co = append(co, WithCertificates(cert),
